@@ -242,6 +242,13 @@ func build(tier string) ([]runner.Instance, time.Duration) {
 				}
 			}
 		}
+		// a blocked call woken by one thread while a third closes the queue and
+		// observes it afterwards (the observation pins the order of Close and the
+		// woken call's effect)
+		for _, obs := range []model.Input{{Kind: model.Len}, {Kind: model.Remove}, {Kind: model.Add, Val: 4}} {
+			add(c, [][]model.Input{{{Kind: model.BlockingAdd, Val: 3}}, {{Kind: model.Remove}}, {{Kind: model.Close}, obs}})
+			add(c, [][]model.Input{{{Kind: model.Wait}}, {{Kind: model.Add, Val: 1}}, {{Kind: model.Close}, obs}})
+		}
 		core := []model.Input{{Kind: model.Add, Val: 1}, {Kind: model.Remove}, {Kind: model.Wait}, {Kind: model.BlockingAdd, Val: 3}, {Kind: model.Close}}
 		for i, a := range core {
 			for j := i; j < len(core); j++ {
